@@ -96,6 +96,9 @@ type LoopSpec struct {
 
 type Contract struct {
 	Locals     []string          // "name:type" of the function's locals in source order when the contract was written (govc locals)
+	SigNames   []string          // names of receiver, parameters and results, in order, when the contract was written
+	CurSig     []string          // the same list computed from the current source
+	SigRenames map[string]string // parameters/results renamed since (matched by position: exact)
 	CurLocals  []string          // the same list computed from the current source
 	Renames    map[string]string // locals of that list that were renamed since: old name -> current name (loop clauses only)
 	StaleLoopsOnly bool // only loop clauses are stale: pre/postconditions still serve callers
@@ -149,7 +152,7 @@ type ContractSet struct {
 	Errs  []string
 }
 
-var clauseKeywords = map[string]bool{"locals": true, "callsite": true, "invoke": true, "funcval": true, "impls": true, "cases": true, "func": true, "iface": true, "props": true, "requires": true, "ensures": true,
+var clauseKeywords = map[string]bool{"locals": true, "sig": true, "callsite": true, "invoke": true, "funcval": true, "impls": true, "cases": true, "func": true, "iface": true, "props": true, "requires": true, "ensures": true,
 	"assigns": true, "loop": true, "inline": true, "trusted": true, "lemma": true, "call": true, "unproved": true}
 
 // ParseContractFile reads the //@ lines of one contract file.
@@ -323,6 +326,8 @@ func ParseContractFile(path, pkgPath string, cs *ContractSet) {
 				}
 			case "locals":
 				cur.Locals = strings.Fields(rest)
+			case "sig":
+				cur.SigNames = strings.Fields(rest)
 			case "callsite":
 				// callsite <callee> requires [label] <expr over the caller's parameters and function-level locals>
 				fs := strings.SplitN(rest, " ", 3)
@@ -748,6 +753,46 @@ func renamesOf(recorded, current []string) map[string]string {
 	return out
 }
 
+// renameIdents renames free identifiers (not field selectors) of an expression text.
+func renameIdents(text string, m map[string]string) string {
+	e, err := parser.ParseExpr(stripOldText(text))
+	if err != nil || stripOldText(text) != text {
+		// keep old(...) texts as they are: rename on the token level instead
+		re := regexp.MustCompile(`[A-Za-z_][A-Za-z0-9_]*`)
+		idx := re.FindAllStringIndex(text, -1)
+		var b strings.Builder
+		last := 0
+		for _, ix := range idx {
+			w := text[ix[0]:ix[1]]
+			if nn, ok := m[w]; ok && (ix[0] == 0 || text[ix[0]-1] != '.') {
+				b.WriteString(text[last:ix[0]])
+				b.WriteString(nn)
+				last = ix[1]
+			}
+		}
+		b.WriteString(text[last:])
+		return b.String()
+	}
+	skip := map[*ast.Ident]bool{}
+	ast.Inspect(e, func(n ast.Node) bool {
+		if se, ok := n.(*ast.SelectorExpr); ok {
+			skip[se.Sel] = true
+		}
+		return true
+	})
+	ast.Inspect(e, func(n ast.Node) bool {
+		if id, ok := n.(*ast.Ident); ok && !skip[id] {
+			if nn, ok := m[id.Name]; ok {
+				id.Name = nn
+			}
+		}
+		return true
+	})
+	var b bytes.Buffer
+	printer.Fprint(&b, token.NewFileSet(), e)
+	return b.String()
+}
+
 func loopsOf(body *ast.BlockStmt) []ast.Stmt {
 	var out []ast.Stmt
 	ast.Inspect(body, func(n ast.Node) bool {
@@ -875,6 +920,10 @@ func (g *genCtx) compileClauseX(c *Contract, cl *Clause, si *sigInfo, pos token.
 		case *ast.Ident:
 			if isBound(n.Name) || n.Name == "_" || n.Name == "nil" || n.Name == "true" || n.Name == "false" {
 				return n
+			}
+			if nn, ok := c.SigRenames[n.Name]; ok {
+				// a parameter or named result that was renamed since the contract was written
+				n = &ast.Ident{Name: nn}
 			}
 			for i, x := range extras {
 				if f := strings.SplitN(x, " ", 2); f[0] == n.Name {
@@ -1342,6 +1391,29 @@ func (g *genCtx) genOne(c *Contract, mine []*Contract, skipLoops bool) {
 			g.errs = append(g.errs, fmt.Sprintf("%s:%d: cannot get signature of %s", c.File, c.Line, c.Key))
 			continue
 		}
+		c.CurSig = nil
+		for _, v := range si.params {
+			c.CurSig = append(c.CurSig, v.Name())
+		}
+		c.CurSig = append(c.CurSig, "->")
+		for _, v := range si.results {
+			nm := v.Name()
+			if nm == "" {
+				nm = "_"
+			}
+			c.CurSig = append(c.CurSig, nm)
+		}
+		c.SigRenames = nil
+		if len(c.SigNames) == len(c.CurSig) {
+			for i, old := range c.SigNames {
+				if nw := c.CurSig[i]; old != nw && old != "_" && nw != "_" && old != "->" && nw != "->" {
+					if c.SigRenames == nil {
+						c.SigRenames = map[string]string{}
+					}
+					c.SigRenames[old] = nw
+				}
+			}
+		}
 		body := fd.Body
 		if lit != nil {
 			body = lit.Body
@@ -1550,6 +1622,9 @@ func (g *genCtx) compileAssign(c *Contract, a *AssignItem, si *sigInfo, pos toke
 		a.Kind = "field"
 		a.Field = t[j+1:]
 		cl.Text = t[:j]
+	}
+	if len(c.SigRenames) > 0 {
+		cl.Text = renameIdents(cl.Text, c.SigRenames)
 	}
 	// learn the type of the expression
 	scopePos := pos
